@@ -109,6 +109,9 @@ Record state := ST {
   nh : nat;                        (* handlers 0..nh-1 exist and are started *)
   honour : hid -> bool;            (* the subscriber closes its channel when the Subscribe ctx ends *)
   fix5 : bool; fix6 : bool; fix12 : bool;
+  fix16 : bool;                    (* D16 repair: Close releases handlersWg for handlers that were added but never started *)
+  unstarted : nat;                 (* handlers that were added (handlersWg.Add(1) in AddHandler) but never started with
+                                      RunHandlers, and that handlersWg still counts *)
   (* router *)
   closedLock : option cid;
   closed : bool;
@@ -142,7 +145,7 @@ Record state := ST {
 }.
 
 #[export] Instance eta_state : Settable _ := settable! ST
-  <nh; honour; fix5; fix6; fix12; closedLock; closed; closingCh; closedCh; close_res; handlersWg;
+  <nh; honour; fix5; fix6; fix12; fix16; unstarted; closedLock; closed; closingCh; closedCh; close_res; handlersWg;
    runningWg; runningLock; w1; w2; run; ctx_done; early_cancel; lp; hc; pp; sub_open; sub_closing; dec_closing;
    sub_closes; pub_closes; out_closed; hstop; mp; nextm; cp; panicked>.
 
@@ -176,14 +179,19 @@ Definition loop_alive (p : lpc) : bool :=
 Definition in_progress (p : mpc) : bool :=
   match p with MSpawned | MRunning | MPublishing | MSettling | MSettled => true | _ => false end.
 
-Definition init (n : nat) (hon : hid -> bool) (f5 f6 f12 : bool) : state :=
+(** [u] handlers have been added but not started (AddHandler after Run without RunHandlers, or a
+    router that was never run): handlersWg counts them, no goroutine stands for them *)
+Definition init_u (n u : nat) (hon : hid -> bool) (f5 f6 f12 f16 : bool) : state :=
   let live := fun h => Nat.ltb h n in
-  ST n hon f5 f6 f12 None false false false None n 0 None W1None W2None RWaitClosing false false
+  ST n hon f5 f6 f12 f16 u None false false false None (n + u) 0 None W1None W2None RWaitClosing false false
      (fun h => if live h then LRecv else LNone)
      (fun h => if live h then HCSelect else HCNone)
      (fun h => if live h then PRecv else PNone)
      live (fun _ => false) (fun _ => false) (fun _ => 0) (fun _ => 0) (fun _ => false) (fun _ => false)
      (fun _ => MNone) 0 (fun _ => CNone) false.
+
+(** every added handler has been started (and the repair of D16 is in place) *)
+Definition init (n : nat) (hon : hid -> bool) (f5 f6 f12 : bool) : state := init_u n 0 hon f5 f6 f12 true.
 
 (** the handler's subscription context is done *)
 Definition hctx_done (s : state) (h : hid) : bool := ctx_done s || hstop s h.
@@ -237,7 +245,11 @@ Definition step (s : state) (l : label) : option state :=
           then Some (s <| cp := upd (cp s) c
                               (CUnlock (if fix12 s then match close_res s with Some r => r | None => RNil end
                                         else RNil)) |>)
-          else Some (s <| cp := upd (cp s) c CSignal |> <| closed := true |>)
+          else if fix16 s
+               then (* r.closed = true; for every handler that was never started: handlersWg.Done(), delete *)
+                    Some (s <| cp := upd (cp s) c CSignal |> <| closed := true |>
+                            <| handlersWg := handlersWg s - unstarted s |> <| unstarted := 0 |>)
+               else Some (s <| cp := upd (cp s) c CSignal |> <| closed := true |>)
       | CSignal =>
           (* close(closingInProgressCh); go waiter(s); select *)
           Some (s <| cp := upd (cp s) c CWait |> <| closingCh := true |>
